@@ -4,8 +4,12 @@ package main
 // real UnmarshalNodeGroupOptions on YAML and JSON renderings of every option key.
 
 import (
+	"context"
+	"encoding/json"
 	"fmt"
 	"io"
+	"os"
+	"os/exec"
 	"reflect"
 	"strings"
 	"time"
@@ -244,5 +248,79 @@ func runDecode(w io.Writer, stats map[string]int) {
 		obs["field"] = field
 		emitLine(w, map[string]interface{}{"op": "decode", "key": k.key, "aws": k.aws, "obs": obs})
 		stats["decode"]++
+	}
+}
+
+// ---------------------------------------------------------------------------------------------
+// startup: the real binary (cmd/main.go) started on generated configuration files. It either refuses the file in
+// setupNodeGroups or goes on to build the Kubernetes client, which fails on a kubeconfig path that does not exist —
+// the marker in the output tells how far it got.
+
+const kubeconfigMarker = "/nonexistent-verif-kubeconfig"
+
+func runStartup(r *Rng, n int, bin string, w io.Writer, stats map[string]int) {
+	dir, err := os.MkdirTemp("", "startup")
+	if err != nil {
+		panic(err)
+	}
+	defer os.RemoveAll(dir)
+	spoil := []func(o *controller.NodeGroupOptions){
+		func(o *controller.NodeGroupOptions) { o.MinNodes, o.MaxNodes = 5, 2 },
+		func(o *controller.NodeGroupOptions) { o.TaintLowerCapacityThresholdPercent = o.TaintUpperCapacityThresholdPercent },
+		func(o *controller.NodeGroupOptions) { o.SlowNodeRemovalRate, o.FastNodeRemovalRate = 3, 1 },
+		func(o *controller.NodeGroupOptions) { o.SoftDeleteGracePeriod, o.HardDeleteGracePeriod = "10m", "1m" },
+		func(o *controller.NodeGroupOptions) { o.ScaleUpCoolDownPeriod = "0" },
+		func(o *controller.NodeGroupOptions) { o.TaintEffect = "Bogus" },
+		func(o *controller.NodeGroupOptions) { o.AWS.Lifecycle = "bogus" },
+		func(o *controller.NodeGroupOptions) { o.MaxNodeAge = "abc" },
+		func(o *controller.NodeGroupOptions) { o.LabelKey = "" },
+		func(o *controller.NodeGroupOptions) { o.ScaleUpThresholdPercent = 30 },
+	}
+	for i := 0; i < n; i++ {
+		k := r.pickI(1, 1, 2, 2, 3, 4)
+		var groups []controller.NodeGroupOptions
+		for g := 0; g < k; g++ {
+			o := baseOpts()
+			o.Name = fmt.Sprintf("g%d", g)
+			o.LabelValue = fmt.Sprintf("v%d", g)
+			o.CloudProviderGroupName = fmt.Sprintf("asg%d", g)
+			if r.chance(15) {
+				o.MinNodes, o.MaxNodes = 0, 0
+			}
+			if r.chance(30) {
+				spoil[r.intn(len(spoil))](&o)
+			}
+			if g > 0 && r.chance(35) {
+				o.Name = groups[r.intn(len(groups))].Name // a copied block that was not renamed
+			}
+			groups = append(groups, o)
+		}
+		if r.chance(50) { // order matters for anything keyed by name
+			for a, b := 0, len(groups)-1; a < b; a, b = a+1, b-1 {
+				groups[a], groups[b] = groups[b], groups[a]
+			}
+		}
+		b, err := json.Marshal(map[string]interface{}{"node_groups": groups})
+		if err != nil {
+			panic(err)
+		}
+		file := fmt.Sprintf("%s/ng%d.json", dir, i)
+		if err := os.WriteFile(file, b, 0o644); err != nil {
+			panic(err)
+		}
+		ctx, cancel := context.WithTimeout(context.Background(), 30*time.Second)
+		out, _ := exec.CommandContext(ctx, bin, "--nodegroups", file, "--kubeconfig", kubeconfigMarker).CombinedOutput()
+		cancel()
+		accepted := strings.Contains(string(out), kubeconfigMarker)
+		raws := []PRawCfg{}
+		for _, o := range groups {
+			raws = append(raws, rawOf(o))
+		}
+		emitLine(w, map[string]interface{}{"op": "startup", "cfgs": raws, "obs": map[string]interface{}{"accepted": accepted}})
+		if accepted {
+			stats["startup:accepted"]++
+		} else {
+			stats["startup:refused"]++
+		}
 	}
 }
